@@ -102,7 +102,8 @@ async def run_seq(cls, dev, acts, ip, own_task=False):
         if k == 0 or k >= 3: gc.collect(); await settle()
         out += ("C" if api.connected else "c") + "%d,%d" % (dev.open, dev.eofs) + o + "|"
     try: await asyncio.wait_for(api.disconnect(), PATIENCE)
-    except Exception: pass
+    except asyncio.TimeoutError: out += "never-returned|"          # the closing disconnect of every sequence counts too
+    except (Exception, asyncio.CancelledError): pass
     await settle()
     return out
 
@@ -114,6 +115,8 @@ NAMES = ["connect", "disconnect", "operation", "with", "with-body-raising-KeyErr
 def spec_judge(acts, text):
     """the property's clauses, independent of the model: track what 'connected' must be"""
     must = False; steps = text.split("|")[:-1]; prev_counts = "0,0"
+    if len(steps) > len(acts) and steps[-1] == "never-returned" and "never-returned" not in steps[:len(acts)]:
+        return "the disconnect() that closes the sequence never returned (waited %d s against a loopback device; trace %s)" % (PATIENCE, text)
     for (k, f), st in zip(acts, steps):
         if st != "never-returned":
             counts = st[1:-1]
